@@ -3,6 +3,9 @@
 import json, os
 HERE = os.path.dirname(os.path.abspath(__file__))
 CLAIMED = {
+ 'C04': ('proof', 'Every Hello frame the two Discover cells can transmit (all getter outcomes, name lengths, wired and wireless) is parsed over symbolic offsets; each property payload is compared byte lane by byte lane with the oracle encoding of the symbolic getter results (big-endian lanes, sign extension for RSSI, flags in the upper half-word, verbatim addresses, names clamped to 32 and written by the getter into the payload area, constants), wireless properties iff the port reports a Wi-Fi mode - deciding byte order, sign and clamps for all attribute values at once. The Linux port getters are interpreted on a symbolic interface record (address/MTU/type copied, speed/100, exact duplex/loopback truth table).',
+         'clang AST, lltdsa engine (byte-lane domain), oracle TLV encodings; whether the Linux daemon fills the interface record correctly from the kernel is outside the property',
+         'abstract interpretation with byte-lane terms; symbolic parse of the Hello; oracle encodings', '4 (C04)'),
  'C17': ('other', 'Sequential isolation: inventory of mutable static storage in the core (exactly the interface list), the list is used only by the context-keyed lookup (verified on its own: a hit rests on the context comparison, a miss yields a zeroed record keyed by the context), and every getter/send effect in all 65 536 dispatch cells carries the caller context - so a trace depends only on that interface\'s frames. Concurrent isolation: lockset over the resolved call graph from every pthread_create start routine of the daemons that parse here; the unsynchronised list access in lltd_state_for_iface is a recorded known finding (any other shared mutable storage or unlocked access is still a violation). Memory-model subtleties beyond unsynchronised conflicting accesses are not decided.',
          'clang AST, lltdsa engine; FreeBSD/SunOS/Win32/Darwin mains do not parse here; KNOWN_FINDINGS lists the g_iface_states race',
          'static-storage inventory + origin check of port effects + lockset over the resolved call graph', '4 (C17)'),
